@@ -578,6 +578,25 @@ func vtRound(r *vfRng, st *vfStats, allCuts bool) []vfCase {
 		_ = before
 		out = append(out, vtFeedCase(4, pc, pic, m, f, true, true, st))
 	}
+	// the cap on concurrent push/pulls: with the limit reached a further request is refused before its
+	// (large) state is read
+	{
+		bigU := bytes.Repeat([]byte{'D'}, 300000)
+		cic := pic
+		cic.compress = false
+		cini := vtMake(cic, []string{"ia"}, bigU, nil, false)
+		crec := &vtConn{}
+		cini.tr.next = func() net.Conn { return crec }
+		cini.m.pushPullNode(addr, false)
+		creq := append([]byte(nil), crec.wr.Bytes()...)
+		chc := pc
+		chc.compress = false
+		ch := vtMake(chc, []string{"ha"}, nil, nil, false)
+		ch.m.pushPullReq.Store(maxPushPullRequests - 1)
+		f := ch.feed(creq, 0)
+		ch.m.pushPullReq.Store(0)
+		out = append(out, vtFeedCase(6, chc, cic, creq[:vfMin(len(creq), 300)], f, false, true, st))
+	}
 	// oversized declared sizes on a plaintext stream
 	for _, hdr := range []pushPullHeader{{Nodes: 1 << 21}, {Nodes: 0, UserStateLen: 21 * 1024 * 1024}, {Nodes: -1}} {
 		b, _ := encode(pushPullMsg, &hdr, false)
